@@ -91,19 +91,28 @@ func (cj *CookieJar) getCookiesByHost(host string) []*fasthttp.Cookie {
 	defer cj.mu.Unlock()
 
 	now := time.Now()
-	cookies := cj.hostCookies[host]
-
-	for i := 0; i < len(cookies); i++ {
-		c := cookies[i]
-		// Remove expired cookies.
-		if !c.Expire().Equal(fasthttp.CookieExpireUnlimited) && c.Expire().Before(now) {
-			cookies = append(cookies[:i], cookies[i+1:]...)
-			fasthttp.ReleaseCookie(c)
-			i--
-		}
+	cookies, ok := cj.hostCookies[host]
+	if !ok {
+		return nil
 	}
 
-	return cookies
+	kept := cookies[:0]
+	for _, c := range cookies {
+		// Remove expired cookies.
+		if !c.Expire().Equal(fasthttp.CookieExpireUnlimited) && c.Expire().Before(now) {
+			fasthttp.ReleaseCookie(c)
+			continue
+		}
+		kept = append(kept, c)
+	}
+	// Drop the references to the released cookies and store the purged list,
+	// so that a released cookie is never reachable from the jar again.
+	for i := len(kept); i < len(cookies); i++ {
+		cookies[i] = nil
+	}
+	cj.hostCookies[host] = kept
+
+	return kept
 }
 
 // Set stores the given cookies for the specified URI host. If a cookie key already exists,
